@@ -2,6 +2,7 @@ import SlogModel.Lemmas.E2E
 import SlogModel.Lemmas.ClientRefine
 import SlogModel.Props.C03
 import SlogModel.Lemmas.ClientHealthy
+import SlogModel.Props.C18
 import SlogModel.Gen.Facts
 
 /-!
@@ -231,6 +232,24 @@ theorem C01_delivered_once_upstream_behaves (pre : List Act) (e0 : St) (hpre : r
   · exact Or.inl h
   · exact Or.inr (Or.inl h)
   · exact Or.inr (Or.inr h)
+
+open ClientRefine in
+/-- **C01 / C18 (nothing only in memory after a stop, however the stop path is walked).** After any history, any faulty client
+run and a stop request: every run of the stop path's actions that cannot be continued (each has at most six steps) ends with the
+client finished, and every record read so far is then in a chunk acknowledged, handed back or never taken (for the buffer to
+save), or counted as dropped. -/
+theorem C01_at_rest_after_every_stop_run (pre : List Act) (e0 : St) (hpre : run {} pre = some e0)
+    (hr : e0.running = true) (hc : e0.cur = []) (hi : e0.inflight = []) (hq : e0.queue.Pairwise (· < ·))
+    (cpre : List Client.Act) (c : Client.St) (h1 : Client.run (Client.init e0.queue) cpre = some c) (hstop : c.stop = true)
+    (acts : List Client.Act) (hacts : ∀ a ∈ acts, a ∈ C18.stopActs) (c' : Client.St) (h2 : C18.runS c acts = some c')
+    (hstuck : ∀ a ∈ C18.stopActs, C18.stepS c' a = none)
+    (r : Nat) (hrec : r < e0.nextRec) :
+    ∃ p ∈ e0.content, r ∈ p.2 ∧
+      (p.1 ∈ e0.acked ∨ p.1 ∈ c'.confirmed ∨ p.1 ∈ c'.handed ∨ p.1 ∈ c'.queue ∨ p.1 ∈ e0.dropped) := by
+  have hfin := (C18.C18_every_stop_run_ends_finished c hstop acts hacts c' h2).2 hstuck
+  have hrun : Client.run (Client.init e0.queue) (cpre ++ acts) = some c' := by
+    rw [C02.run_append, h1]; exact C18.runS_run acts c c' h2
+  exact C01_at_rest_through_client pre e0 hpre hr hc hi hq (cpre ++ acts) c' hrun hfin r hrec
 
 /-! ### the interface between buffer and client: what the consumer receives is what `Client.init` is given -/
 
